@@ -43,6 +43,10 @@ CHECKS = {
             "TLC checks the reduction identity (IdentityOK, LossIdentity), ProjectOK and ReductionExact (argmin equality over the whole hypothesis class and a multiplier grid) on the specification; signed_weights / project_lambda / _call_oracle of the code replayed on every state",
             "signed_weights for every unit multiplier equals the exact rational vector; additivity with random lambda; the identity lambda.gamma(h)-lambda.gamma(h') = -(1/n) sum w_i (h_i-h'_i) re-evaluated on the code's own gamma and weights with soft predictors; project_lambda non-negative and Lagrangian-non-decreasing; loss-moment identity and weights lambda_g/P(g); ErrorRate objective weights; the labels 1[w>0] and weights n|w|/sum|w| that _Lagrangian._call_oracle hands to the learner are recorded and compared",
             "multiplier grid in TLC: entries 0..2 with at most two non-zero components (the identities are linear in lambda); empty constraint index and all-zero weights excluded as preconditions", "5/C07"),
+    "C09": (["Grid.tla", "Moments.tla", "Rat.tla"],
+            "TLC checks the transcribed grid generator (Grid.tla: count, distinctness, L1 bound, minimal n_units, injective basis map, selection rule) for every dim x sign pattern x grid_size; real GridSearch.fit with an exact learner is checked against TLC's exact payoff table of the whole hypothesis class",
+            "property tier: lambda_vecs_ has grid_size distinct non-negative columns with L1 <= grid_limit; each predictor attains min_h error + lambda.gamma on the exact table (weighted group loss for BoundedGroupLoss); objectives_/gammas_ equal the table entries of the predictor's actual predictions; learner calls carry the relabel/reweight of their column in column order; best_idx_ minimises the trade-off; predict/predict_proba delegate. Refinement tier: the real _GridGenerator's integer lattice equals Grid.tla's for every enumerated configuration",
+            "float multipliers: inequalities in float64 (1e-9) over exact table data; datasets where no event is shared by two groups (no free constraint direction) and grid points with all-zero weights are skipped as preconditions and listed in the evidence", "5/C09"),
 }
 
 PENDING_REASON = "check under construction in this session (DESIGN.md section 5 describes the planned TLA+ spec and binding); not yet claimed"
